@@ -18,7 +18,7 @@ import (
 func init() {
 	Registry["C19"] = &Check{
 		Scenarios: c19Scenarios,
-		Rule: "S in {1,2} streams (stream numbers rotating over {0,1,5}, {16,0,65535}, {21,15,0}, {1,17,16} from one history to the next): per stream every sequence of <=2 messages over sizes {20 (header only), 40, 1100 bytes} from a list of eight; each stream's bytes cut into <=3 chunks at every choice of <=2 cut points from {inside the first header, header/body border, inside the body, message border, inside the second header, spanning point}; ALL merges (interleavings) of the per-stream chunk sequences; then EOF. Bursts: between the two chunks of one stream's 40-byte message (cut at 10, 20, 30) a burst of another stream {30, 64, 66, 70, 140 x 1000 bytes, 100 x 1100, 3 x 30000, 192 x 1024} arrives, one message per chunk or re-cut into 8000-byte chunks, with or without a short message of a third stream in its middle (stream buffers of 30 KB to 192 KiB). More than sixteen streams: 15, 16, 17 or 20 streams deliver a whole message each behind the stalled first message of stream 0; behind its stalled second message one of them delivers again and a never-seen stream delivers for the first time (either order, four size assignments). Empty reads: after the first k bytes (k = 1..20, 30) of a stream's message a read returns 0 bytes and no error (once or twice), then a whole message of another stream arrives, then the rest. In every other history the application has pinned a writer stream (SetWriterStream): replies still follow their requests. S = 5: the first stream's message (40 or 1100 bytes) in two chunks around whole messages of four other streams with sizes from {40,48,56,80} (all 256 assignments x 24 arrival orders). S = 3: single messages of 20, 40 and 48 bytes per stream with <=1 cut, all merges (thorough: also the general family with <=1 cut). The chunks are fed through the in-memory SCTP backend (partial delivery: a read returns at most the buffer size of the head chunk) to a real diam.Conn created with diam.NewConn over diam.NewSCTPConnBackend, i.e. consumed by the library's own reader loop; the handler records (message, MessageStream()) and answers. One deterministic schedule per history (the quantifier is over chunk histories). Last clause: additionally the deferred-answer grid of C16 (all 16 stream pairs x 0-2 temporarily failing write attempts) and two application goroutines answering requests of streams {3,5} / {0,7} concurrently, every schedule up to preemption bound 2.",
+		Rule: "S in {1,2} streams (stream numbers rotating over {0,1,5}, {16,0,65535}, {21,15,0}, {1,17,16} from one history to the next): per stream every sequence of <=2 messages over sizes {20 (header only), 40, 1100 bytes} from a list of eight; each stream's bytes cut into <=3 chunks at every choice of <=2 cut points from {inside the first header, header/body border, inside the body, message border, inside the second header, spanning point}; ALL merges (interleavings) of the per-stream chunk sequences; then EOF. Bursts: between the two chunks of one stream's 40-byte message (cut at 10, 20, 30) a burst of another stream {30, 64, 66, 70, 140 x 1000 bytes, 100 x 1100, 3 x 30000, 192 x 1024} arrives, one message per chunk or re-cut into 8000-byte chunks, with or without a short message of a third stream in its middle (stream buffers of 30 KB to 192 KiB). More than sixteen streams: 15, 16, 17 or 20 streams deliver a whole message each behind the stalled first message of stream 0; behind its stalled second message one of them delivers again and a never-seen stream delivers for the first time (either order, four size assignments). No stream information: three messages (40, 1100, 20 bytes) on an association that delivers data without SndRcvInfo, cut at every offset of the first 60 bytes and at later offsets, and in 1-, 7- and 100-byte chunks. Empty reads: after the first k bytes (k = 1..20, 30) of a stream's message a read returns 0 bytes and no error (once or twice), then a whole message of another stream arrives, then the rest. In every other history the application has pinned a writer stream (SetWriterStream): replies still follow their requests. S = 5: the first stream's message (40 or 1100 bytes) in two chunks around whole messages of four other streams with sizes from {40,48,56,80} (all 256 assignments x 24 arrival orders). S = 3: single messages of 20, 40 and 48 bytes per stream with <=1 cut, all merges (thorough: also the general family with <=1 cut). The chunks are fed through the in-memory SCTP backend (partial delivery: a read returns at most the buffer size of the head chunk) to a real diam.Conn created with diam.NewConn over diam.NewSCTPConnBackend, i.e. consumed by the library's own reader loop; the handler records (message, MessageStream()) and answers. One deterministic schedule per history (the quantifier is over chunk histories). Last clause: additionally the deferred-answer grid of C16 (all 16 stream pairs x 0-2 temporarily failing write attempts) and two application goroutines answering requests of streams {3,5} / {0,7} concurrently, every schedule up to preemption bound 2.",
 		Assume: []string{"the in-memory backend models one-to-one-socket recvmsg partial delivery (hook diam/sctp_verif.go, build tag verif)", "single default schedule per history"},
 		QuickBudget: 150, ThoroughBudget: 2400,
 	}
@@ -139,11 +139,63 @@ type c19Rec struct {
 	size     int
 }
 
+// c19NoInfoMode: the in-memory association hands out data without SndRcvInfo.
+var c19NoInfoMode bool
+
+// c19NoInfo: three messages (one with a body above 1 KiB) back to back on an association without
+// stream information, cut at every single offset of the first 60 bytes and at a set of later
+// offsets, and delivered in chunks of 1, 7 and 100 bytes. Every message is delivered, in order.
+func c19NoInfo(r *SeqResult) {
+	saved := c19Streams
+	c19NoInfoMode = true
+	defer func() { c19Streams = saved; c19NoInfoMode = false; r.Capped += c19Capped; c19Capped = 0 }()
+	c19Streams = []uint16{0}
+	sizes := []int{40, 1100, 20}
+	var all []byte
+	for j, sz := range sizes {
+		all = append(all, c19Msg(0, j, sz)...)
+	}
+	run := func(chunks [][]byte, desc string) {
+		order := make([]int, len(chunks))
+		r.Cases++
+		r.Distinct++
+		if r.Violation != "" {
+			return
+		}
+		if v := c19Run([]streamCfg{{sizes: sizes, chunks: chunks, desc: desc}}, order); v != "" {
+			r.Violation = fmt.Sprintf("%s | association without stream information: sizes%v %s", v, sizes, desc)
+			r.Case = map[string]interface{}{"noinfo": desc}
+		}
+	}
+	run([][]byte{all}, "uncut")
+	for cut := 1; cut < len(all); cut++ {
+		if cut > 60 && cut%97 != 0 && cut != 40+20 && cut != 40+1100 && cut != 40+1100+10 {
+			continue
+		}
+		run([][]byte{all[:cut], all[cut:]}, fmt.Sprintf("cut at %d", cut))
+	}
+	for _, k := range []int{1, 7, 100} {
+		var chunks [][]byte
+		for p := 0; p < len(all); p += k {
+			e := p + k
+			if e > len(all) {
+				e = len(all)
+			}
+			chunks = append(chunks, all[p:e])
+		}
+		run(chunks, fmt.Sprintf("%d-byte chunks", k))
+	}
+	if r.Sample == "" {
+		r.Sample = "three messages on an association that delivers no stream information, every cut"
+	}
+}
+
 func c19Run(cfgs []streamCfg, order []int) string {
 	var recs []c19Rec
 	var be *vnet.SCTP
 	s := vs.Run(nil, false, 5*time.Second, false, func() {
 		be = vnet.NewSCTP("M")
+		be.NoInfo = c19NoInfoMode
 		pos := make([]int, len(cfgs))
 		for _, si := range order {
 			if len(cfgs[si].chunks[pos[si]]) == 0 {
@@ -191,7 +243,7 @@ func c19Run(cfgs []streamCfg, order []int) string {
 		if si < 0 || si >= len(cfgs) {
 			return fmt.Sprintf("a message with unknown id %d.%d was delivered (bytes of different streams mixed)", r.hbh, r.e2e)
 		}
-		if r.stream != uint(c19Streams[si]) {
+		if !c19NoInfoMode && r.stream != uint(c19Streams[si]) {
 			return fmt.Sprintf("message %d of stream %d reports MessageStream()=%d", r.e2e, c19Streams[si], r.stream)
 		}
 		if int(r.e2e)-1 != next[si] {
@@ -216,7 +268,7 @@ func c19Run(cfgs []streamCfg, order []int) string {
 		if err != nil || h.HbH != recs[i].hbh || h.E2E != recs[i].e2e {
 			return fmt.Sprintf("answer %d does not answer request %d.%d", i, recs[i].hbh, recs[i].e2e)
 		}
-		if uint(w.Stream) != recs[i].stream {
+		if !c19NoInfoMode && uint(w.Stream) != recs[i].stream {
 			return fmt.Sprintf("answer to request %d.%d (arrived on stream %d) was written to stream %d", recs[i].hbh, recs[i].e2e, recs[i].stream, w.Stream)
 		}
 	}
@@ -307,6 +359,9 @@ func c19Scenarios(tier string) []*Scenario {
 	// more streams than the 16 the library sizes its tables for: 15..20 parked streams, then a
 	// second round in which a parked stream and a never-seen stream deliver behind a stalled message
 	out = append(out, &Scenario{Name: "streams/more-than-sixteen", Seq: c19Many})
+	// an association that delivers data WITHOUT stream information (the socket is not subscribed to
+	// the data-io event, or the stack does not fill it in): one byte stream, every cut
+	out = append(out, &Scenario{Name: "streams/no-stream-information", Seq: c19NoInfo})
 	// empty reads: the association answers a read with no data and no error while a message is
 	// incomplete (inside the header, at its end, inside the body), and the next data that arrives
 	// belongs to another stream
